@@ -11,6 +11,9 @@ pub struct ListModel {
     pub sizes: Vec<u64>,
     pub byte_length: u64,
     pub writeable: bool,
+    /// fork counter the core must report (0 unless the storage was laid out with another one)
+    #[serde(default)]
+    pub fork: u64,
 }
 
 impl Default for ListModel {
@@ -21,7 +24,7 @@ impl Default for ListModel {
 
 impl ListModel {
     pub fn new() -> Self {
-        ListModel { blocks: vec![], sizes: vec![], byte_length: 0, writeable: true }
+        ListModel { blocks: vec![], sizes: vec![], byte_length: 0, writeable: true, fork: 0 }
     }
     pub fn len(&self) -> u64 {
         self.blocks.len() as u64
